@@ -126,7 +126,20 @@ class Result:
 
 
 def _worker_entry(fn, args):
-    # each worker is its own process group leader's child; make watchdog-able
+    # pool workers never run atexit handlers: scratch directories made during this call are removed here
+    from . import build as _b
+    mark = len(_b._tmpdirs)
+    try:
+        return _worker_call(fn, args)
+    finally:
+        import shutil
+        for pid, d in _b._tmpdirs[mark:]:
+            if pid == os.getpid():
+                shutil.rmtree(d, ignore_errors=True)
+        del _b._tmpdirs[mark:]
+
+
+def _worker_call(fn, args):
     try:
         return fn(*args)
     except Inconclusive as e:
